@@ -8,9 +8,9 @@ CHECKS = {
     "C01": ("cross-invariant State.total == forwarded - set-aside - swept (+resume re-basing) after every transaction, plus the honest-operator backing equation, over seeded histories with IBC faults; both token-factory builds",
             "world stubs (runtime/bank/IBC/hooks/native chain) are trusted; forced recoveries by an honest admin only; sampled, not enumerated", "6 C01"),
     "C02": ("contract staked-asset balance == unwithdrawn received batches + retained fees + refunded-not-re-sent transfers after every transaction; entitled withdraw / fee withdraw / recovery never fail for lack of funds; one listed known finding (ownerless-stake sweep)",
-            "bank and IBC refund ledgers of the simulator are ground truth; unsolicited transfers to the contract are not generated", "6 C02"),
+            "bank and IBC refund ledgers of the simulator are ground truth; the equation is read net of unsolicited deposits (generated as a fault kind), which back nobody's claim", "6 C02"),
     "C03": ("token-factory supply == State LST total; contract LST balance == pending batch + refundable LST; each stake delivers exactly the minted amount to the chosen recipient on either chain and to nobody else; each submission burns the batch total; both builds",
-            "token-factory and bank stubs are ground truth", "6 C03"),
+            "token-factory and bank stubs are ground truth; the contract's own LST balance is read net of unsolicited deposits", "6 C03"),
     "C04": ("per-transaction refinement against independent 256-bit arithmetic: floor mint, refusal conditions, floor set-aside, rate monotonicity, no round-trip profit, along histories with totals seeded across magnitudes and rates; a quarter of the cases sample the two public ratio helpers directly over the whole 128-bit range",
             "the pure-arithmetic forall over all 128-bit inputs is sampled at reachable totals and rounding-boundary amounts, not enumerated", "6 C04"),
     "C05": ("model of requests per batch built from real LiquidUnstake calls; payouts compared with floor(received*own/total) from bank effects; second withdrawals, strangers, slashed and generous deliveries, all orders",
@@ -18,7 +18,7 @@ CHECKS = {
     "C06": ("batch-structure invariants after every transaction (one pending, highest id, contiguous ids, monotone status, constant expected) and success-iff conditions of SubmitBatch / ReceiveUnstakedTokens at deadline-1/0/+1 s on the simulated clock",
             "block time is the only clock; success demand dropped only under an injected environment fault or a resume artefact", "6 C06"),
     "C07": ("ground-truth packet table (true fate of every transfer) compared with IbcQueue/IbcReplyQueue after every transaction under submission failures, error acks, timeouts, reordering, stray and lost callbacks; recovery selection/sum/receiver checks incl. repeated ids; rollback on failed submission",
-            "IBC core never replays an acknowledgement for the same (channel, sequence); lost callbacks only in the dedicated configuration", "6 C07"),
+            "IBC core never replays an acknowledgement for the same (channel, sequence); ibc-hooks semantics as on Osmosis: an erroring acknowledgement callback fails the relayer's transaction and is relayed again, an erroring timeout callback is dropped for good (so the timeout of a tracked transfer must not be answered with an error)", "6 C07"),
     "C08": ("intruder operations (message kind x principal) interleaved in every reachable state; unauthorised => error and storage byte-identical; withdraw pays the caller's own request only",
             "principals are those the statement lists; addresses are valid bech32 under the chain prefix", "6 C08"),
     "C09": ("the simulator's own ibc-hooks implementation (independent SHA-256/bech32 recipe) executes the contract from the derived account: genuine staker/collector accepted, impostors (other account, other channel, role swap, direct call) refused, across channel (incl. non-canonical spellings) / staker / collector (incl. upper-case) configurations and the prefix written by the 0.4.20->1.0.0 migration; derivation compared input by input; every prefix accepted by validation must be derivable",
@@ -28,7 +28,7 @@ CHECKS = {
     "C11": ("fee == floor(rate*reward/100000) by independent arithmetic from bank/IBC effects of each reward transaction; treasury paid in the same transaction or accrual; FeeWithdraw bounded by accrued across treasury/config changes",
             "zero-amount bank sends accepted by the stub; zero-amount IBC transfers rejected", "6 C11"),
     "C12": ("model (admin, nominee, earliest acceptance) against nominate/revoke/accept by every principal at min_time-1/0/+1 s on both contracts; former admin loses rights, acceptance consumes nomination",
-            "simulated clock; admin-only probe message is RevokeOwnershipTransfer", "6 C12"),
+            "simulated clock with sub-second block times in half of the runs; the admin-only probe is an UpdateConfig without sections (touches nothing)", "6 C12"),
     "C13": ("multi-party histories against the real treasury contract: swap executed => trader at that time, route in allow-list at that time, end-point denom matches; emitted message decoded by an independent protobuf reader equals the request; spends admin-only with prefix rules",
             "no clock or fault dimension in this property: the simulator contributes histories (config updates between swaps) and independent decoding", "6 C13"),
     "C14": ("field-level corrupted instantiate/UpdateConfig messages against an independent well-formedness checker (own bech32); sectional updates verified by raw-storage diff inside running histories; validator edits exact",
@@ -40,7 +40,7 @@ CHECKS = {
     "C17": ("after histories with many batches/packets: random (start_after, limit, status) pages, full paging walks, by-id lookups, queue paging and per-user requests compared with the reference model; raw-storage index cross-check",
             "limit >= 1 (a page size of 0 is not a page)", "6 C17"),
     "C18": ("gate matrix (name x stored version x message) on generated stores, upgrade in the middle of a run with packets in every status and continuation under the conservation oracles, older config paths field by field, abort-at-k-th-storage-access inside migrate then retry",
-            "legacy layouts are reconstructed from the migration state modules' field lists", "6 C18"),
+            "legacy layouts are reconstructed from the migration state modules' field lists; the released batch storage format is a golden record in the harness", "6 C18"),
     "C19": ("both binaries run the same seeds; token-factory messages decoded by a hand-written canonical protobuf reader per flavour; normalised event logs compared run by run",
             "the chain stub of each flavour accepts only its own type URLs", "6 C19"),
 }
